@@ -25,8 +25,8 @@ RULE = (
     "(relative forms now designate fresh locations) and a fresh process reads those; a fresh process P2 started in another directory opens "
     "the same locations (absolute) and loads / re-evaluates; view B (same internal dir, other data dir) evaluates: nothing "
     "kept may run; the program is edited and evaluated in B; view A must still serve the old values until it evaluates the "
-    "new code, which must run nothing kept; finally the internal directory is moved elsewhere and opened with the old data directory "
-    "(nothing kept may run, the dangling links must be re-pointed). Non-trivial = a non-absolute or symlinked directory form, or the two-view part "
+    "new code, which must run nothing kept; finally a second empty internal directory takes over the data directory, the first one is moved elsewhere (the second must "
+    "still serve everything), then the moved one is opened with the old data directory (nothing kept may run, links re-pointed) and the second deleted. Non-trivial = a non-absolute or symlinked directory form, or the two-view part "
     "reached with >=1 kept node; distinct by (forms, cache, program)."
 )
 ASSUMPTIONS = [
@@ -34,7 +34,8 @@ ASSUMPTIONS = [
     "usable = the process can create and write the directories",
 ]
 
-FORMS = ["abs", "rel", "rel_dotdot", "trailing", "nested", "symlink", "symlink_deep", "preexisting"]
+FORMS = ["abs", "rel", "rel_dotdot", "trailing", "nested", "symlink", "symlink_deep", "preexisting", "otherfs"]
+OTHER_FS = "/dev/shm"   # a second file system, when the machine has one that is writable (else the form falls back to "abs")
 CACHES = [None, False, True, 0, -1, 2]
 
 
@@ -83,6 +84,17 @@ def location(base, name, form, cwd):
         if not os.path.lexists(lnk):
             os.symlink(real, lnk)
         return os.path.join(lnk, name), os.path.join(lnk, name)
+    if form == "otherfs":
+        # the directory lives on another file system than the other directory of the store
+        try:
+            usable = os.path.isdir(OTHER_FS) and os.access(OTHER_FS, os.W_OK) and os.stat(OTHER_FS).st_dev != os.stat(base).st_dev
+        except OSError:
+            usable = False
+        if not usable:
+            p = os.path.join(base, name)
+            return p, p
+        p = os.path.join(OTHER_FS, "vf-c16-" + common.chash(base), name)
+        return p, p
     if form == "preexisting":
         p = os.path.join(base, "pre_" + name)
         os.makedirs(p, exist_ok=True)
@@ -216,21 +228,35 @@ def check_case(case, ev=None, scratch=None):
         check_eval(p3, "view A evaluating the code already computed through view B", exp2, True)
         check_loads(p3, "view A after its own evaluation", newB)
         check_loads(p1, "P1 (still alive, old cwd changed) after everything", newB)
-        # the internal directory is moved elsewhere; the data directory (whose links now dangle) stays
+        # a second, empty internal directory takes over the data directory while the first one still exists
         import shutil
 
+        i3 = os.path.join(base, "int_second")
+        p4 = P(root_dir, cwd1, prog2)
+        procs.append(p4)
+        p4.set_store(i3, dabs, case["cache"])
+        check_eval(p4, "second internal directory under the old data directory", exp2, False)
+        check_loads(p4, "second internal directory under the old data directory", dict(it2.kept))
+        p4.close()
+        # ... then the first internal directory is moved elsewhere
         i2 = os.path.join(base, "moved", "int_moved")
         os.makedirs(os.path.dirname(i2))
         shutil.move(os.path.realpath(iabs), i2)
-        p4 = P(root_dir, cwd1, prog2)
-        procs.append(p4)
-        p4.set_store(i2, dabs, case["cache"])
-        check_eval(p4, "internal directory moved, old data directory", exp2, True)
-        check_loads(p4, "internal directory moved, old data directory", dict(it2.kept))
         p5 = P(root_dir, cwd0, prog2)
         procs.append(p5)
-        p5.set_store(i2, dabs, case["cache"])
-        check_loads(p5, "fresh process after the internal directory was moved", dict(it2.kept))
+        p5.set_store(i3, dabs, case["cache"])
+        check_loads(p5, "fresh process on the second internal directory after the first one was moved away", dict(it2.kept))
+        # the moved internal directory is opened with the old data directory: nothing kept may run, links are re-pointed
+        p6 = P(root_dir, cwd1, prog2)
+        procs.append(p6)
+        p6.set_store(i2, dabs, case["cache"])
+        check_eval(p6, "internal directory moved, old data directory", exp2, True)
+        check_loads(p6, "internal directory moved, old data directory", dict(it2.kept))
+        shutil.rmtree(i3)
+        p7 = P(root_dir, cwd0, prog2)
+        procs.append(p7)
+        p7.set_store(i2, dabs, case["cache"])
+        check_loads(p7, "fresh process after the internal directory was moved (the second one deleted)", dict(it2.kept))
         if ev is not None:
             nt = case["iform"] != "abs" or case["dform"] != "abs" or bool(kept_names)
             ev.case({"iform": case["iform"], "dform": case["dform"], "cache": repr(case["cache"]), "edit": case["edit"],
@@ -240,8 +266,87 @@ def check_case(case, ev=None, scratch=None):
     finally:
         for p in procs:
             p.close()
+        import shutil as _sh
+
+        _sh.rmtree(os.path.join(OTHER_FS, "vf-c16-" + common.chash(base)), ignore_errors=True)
         if own:
             scratch.clean()
+
+
+DEFAULTS_SRC = """import os
+import dds
+
+
+@dds.data_function('/dflt/p')
+def f():
+    with open(os.environ['C16_MARK'], 'a') as fh:
+        fh.write('x')
+    return ('f', 7)
+"""
+
+DEFAULTS_MAIN = """import sys, json
+sys.path.insert(0, {root!r})
+import dds
+dds.accept_module('dpk')
+cfg = {cfg!r}
+if cfg is not None:
+    dds.set_store('local', **cfg)
+import dpk.m0 as m
+out = {{}}
+try:
+    out['load'] = repr(dds.load('/dflt/p'))
+except BaseException as e:
+    out['load'] = 'EXC ' + type(e).__name__
+out['keep'] = repr(m.f())
+out['load_after'] = repr(dds.load('/dflt/p'))
+print(json.dumps(out))
+"""
+
+
+def check_defaults(ev, scratch):
+    """Directories left to their defaults: the implicit store of a program that never calls set_store and a store configured
+    with set_store('local') (any option left out) are the same store - what one keeps, the other loads without recomputing."""
+    import json
+    import subprocess
+    import sys
+
+    cfgs = [None, {}, {"cache_objects": True}, {"cache_objects": 2}, "data_only", "internal_only"]
+    for first in cfgs:
+        for second in cfgs:
+            if first == second and first is not None:
+                continue
+            base = scratch.sub()
+            tmpd = os.path.join(base, "tmp")
+            root = os.path.join(base, "src")
+            os.makedirs(tmpd)
+            os.makedirs(os.path.join(root, "dpk"))
+            open(os.path.join(root, "dpk", "__init__.py"), "w").close()
+            with open(os.path.join(root, "dpk", "m0.py"), "w") as f:
+                f.write(DEFAULTS_SRC)
+            mark = os.path.join(base, "mark")
+            env = dict(os.environ)
+            env.update({"TMPDIR": tmpd, "C16_MARK": mark, "PYTHONPATH": os.pathsep.join([common.REPO, common.VERIF]), "PYTHONDONTWRITEBYTECODE": "1"})
+            outs = []
+            for cfg in (first, second):
+                if cfg == "data_only":
+                    cfg = {"data_dir": os.path.join(tmpd, "dds", "data")}
+                elif cfg == "internal_only":
+                    cfg = {"internal_dir": os.path.join(tmpd, "dds", "store")}
+                p = subprocess.run([sys.executable, "-W", "ignore", "-c", DEFAULTS_MAIN.format(root=root, cfg=cfg)], env=env, cwd=base,
+                                   stdout=subprocess.PIPE, stderr=subprocess.PIPE)
+                if p.returncode != 0:
+                    raise Violation(f"default directories: a program configured with {cfg!r} failed: {p.stderr.decode()[-400:]}", {"defaults": [repr(first), repr(second)]})
+                outs.append(json.loads(p.stdout.decode().strip().splitlines()[-1]))
+            what = f"default directories: first program store config {first!r}, second {second!r}"
+            case = {"defaults": [repr(first), repr(second)]}
+            if outs[0]["keep"] != repr(("f", 7)) or outs[1]["keep"] != repr(("f", 7)) or outs[1]["load_after"] != repr(("f", 7)):
+                raise Violation(f"{what}: wrong values {outs}", case)
+            if outs[1]["load"] != repr(("f", 7)):
+                raise Violation(f"{what}: the second program cannot load what the first one kept: {outs[1]['load']}", case)
+            runs = len(open(mark).read()) if os.path.exists(mark) else 0
+            if runs != 1:
+                raise Violation(f"{what}: the kept function ran {runs} times (the two programs do not share one store)", case)
+            ev.case(case, True, features=["default-directories"])
 
 
 def shard(idx, n, tier, seed, count):
@@ -249,6 +354,8 @@ def shard(idx, n, tier, seed, count):
     scratch = common.Scratch("vf-c16")
     opts = {"exclude": common.open_features(ID), "max_funcs": 5}
     try:
+        if idx == n - 1:
+            check_defaults(ev, scratch)
         v = common.hyp_drive(case_strategy(opts), lambda c: check_case(c, ev, scratch), seed * 1000 + 1600 + idx, count, ev)
     finally:
         scratch.clean()
@@ -261,4 +368,7 @@ def run(tier, seed, scale=1.0):
 
 
 def replay(case):
+    if "defaults" in case:
+        with common.Scratch("vf-c16") as sc:
+            return check_defaults(Ev(), sc)
     check_case(case)
